@@ -254,13 +254,14 @@ def dltyped(  # noqa: C901, PLR0915
                 actual_args[str(scope_provider)],
                 DLTypeScopeProvider,
             ):
-                ctx.tensor_shape_map = actual_args[str(scope_provider)].get_dltype_scope()
+                # work on a copy: the mapping belongs to the provider and must not be written to
+                ctx.tensor_shape_map = dict(actual_args[str(scope_provider)].get_dltype_scope())
                 _logger.debug("Using self as scope provider %s", ctx.tensor_shape_map)
             elif scope_provider is not None and isinstance(
                 scope_provider,
                 DLTypeScopeProvider,
             ):
-                ctx.tensor_shape_map = scope_provider.get_dltype_scope()
+                ctx.tensor_shape_map = dict(scope_provider.get_dltype_scope())
                 _logger.debug("Using unbound scope provider %s", ctx.tensor_shape_map)
             elif scope_provider is not None:
                 raise _errors.DLTypeScopeProviderError(
